@@ -273,10 +273,10 @@ def build(repo):
                        'x0': 'unk'},
                types={},
                requires=['G.calls == 0', 'G.pts == 0', 'not G.pending', 'G.restarts == 0', 'G.offered == G.lastk'],
-               ghost_after_assign={'xmin': [('G.best', 'G.ent')], 'jacmin': [('G.bestjac', 'G.entjac')]},
-               ghost_before={'solve_main#1': [('G.maxfun', 'maxfun')],
-                             'solve_main#2': [('G.restarts', 'G.restarts + 1')],
-                             'solve_main#3': [('G.restarts', 'G.restarts + 1')]},
+               ghost_after_assign={'xmin': [('G.best', 'G.ent')], 'jacmin': [('G.bestjac', 'G.entjac')], 'objmin2': [('G.objnew', 'objmin2')]},
+               ghost_before={'solve_main#1': [('G.maxfun', 'maxfun'), ('G.ran', 'False')],
+                             'solve_main#2': [('G.restarts', 'G.restarts + 1'), ('G.objprev', 'objmin'), ('G.ran', 'True')],
+                             'solve_main#3': [('G.restarts', 'G.restarts + 1'), ('G.objprev', 'objmin'), ('G.ran', 'True')]},
                asserts={'before:solve_main#1': [('budget is the caller\'s:: implies(not isnone(old(maxfun)), maxfun == old(maxfun))', 'C02')]},
                loops={'for:i#0': [('columns 0..i-1 of the returned Jacobian have been divided by their scale, once, in order:: '
                                    'not isnone(jacmin) and jacmin == UNSC(EJ(G.bestjac), i_) and n >= 0', 'C11')],
@@ -286,7 +286,11 @@ def build(repo):
                           ('best-so-far tuple is one whole entry:: xmin == EX(G.best) and rmin == ER(G.best) and objmin == EO(G.best) and '
                            'nsamples_min == ENS(G.best) and xmin_eval_num == EEN(G.best)', 'C03'),
                           ('Jacobian kept with its own evaluation numbers:: isnone(jacmin) or (jacmin == EJ(G.bestjac) and jacmin_eval_nums == EJN(G.bestjac))', 'C11'),
-                          ('MAXFUN => nf == maxfun:: implies(exit_info.flag == EXIT_MAXFUN_WARNING, nf == maxfun)', 'C10')]},
+                          ('MAXFUN => nf == maxfun:: implies(exit_info.flag == EXIT_MAXFUN_WARNING, nf == maxfun)', 'C10'),
+                          ('(C04, C08 ii) after every restarted run the best-so-far objective is the NaN-aware minimum of the previous best and the value the run returned: the run\'s value '
+                           'is taken when it is strictly smaller or when the previous best is NaN, and a NaN result never replaces a non-NaN best:: '
+                           'implies(G.ran, (objmin == G.objnew or objmin == G.objprev) and implies(LT(G.objnew, G.objprev) or ISNAN(G.objprev), objmin == G.objnew) and '
+                           'implies(objmin != G.objprev, not ISNAN(G.objnew) or ISNAN(G.objprev)))', 'C04', 'C08')]},
                modifies=['G.*', 'params[*]'], result='unk',
                msg_asserts={MAXRESTART_MSG: [('that many runs were performed:: nruns >= params("restarts.max_unsuccessful_restarts")', 'C10'),
                                              ('(f) a success flag is attached only to a finite objective:: G.objfinite', 'C10')]},
